@@ -92,6 +92,18 @@ def scenarios(rng, tier):
             s.lines.append('cfg 0 mtufail=1'); s.frame(0, emit(M, own, [(1, 0, mac(7), mac(8))] * 30, seq=6, count=rng.choice([39, 60, 104])), 'ff'); s.frame(0, query(M, own, seq=7))
             s.lines.append('cfg 0 mtufail=0 macfailat=1'); s.frame(0, discover(M, gen=3)); s.frame(0, query(M, own, seq=8))
             s.frame(0, reset(M)); s.frame(1, reset(M))
+    # the very allocation of a NEW interface's record fails while another interface holds observations, a mapper and a cached
+    # icon: that frame may go unanswered, but nothing the first interface holds may be lost, and nothing may leak
+    for k in range(6):
+        s.start('regfail_%d~x' % k); s.lines.append('cfg 0 mtu=1500'); s.lines.append('cfg 1 mtu=1500'); s.lines.append(gline(icon=bytes(range(200)), fname=b'fn'))
+        s.frame(0, discover(M, gen=1))
+        for i in range(3): s.frame(0, probe(mac(100 + i), own, mac(100 + i), own))
+        if k % 2: s.frame(0, qlt(M, own, 14, 0, seq=2))
+        s.op('failalloc', 1 + k // 2)                      # the next allocation(s): the new record (and, for k >= 2, what follows)
+        s.frame(1, [discover(mac(2), gen=1), probe(mac(300), own_of(1), mac(300), own_of(1)), query(mac(2), own_of(1), seq=3)][k % 3])
+        s.op('failalloc clear')
+        s.frame(0, discover(mac(5), gen=2)); s.frame(0, query(M, own, seq=4))
+        s.frame(0, reset(M)); s.frame(1, reset(M))
     for k in range(1, 7):
         # the automata of an interface are built while the k-th allocation fails, then driven through the core's own API
         # (ticks, session table, automata events); a constructor result that is NULL is passed on as the ports would
@@ -131,6 +143,18 @@ def oracle(name, ib, mb, meta):
                 if 'inact' in b.kv and b.kv['map'].split('@')[0] != '0':
                     fails.append((i, 'mapping engine still in state %s after 30 s without a frame and a tick (automata built while an allocation failed): the session never ends' % b.kv['map'].split('@')[0]))
                 break
+    if name.startswith('regfail'):
+        for i, b in enumerate(ib):
+            if not b.op.startswith('frame 0 '): continue
+            t = b.op.split(); d = dec(bytes.fromhex(t[3]) + bytes(36))
+            if d['opc'] == 0 and d['rsrc'] == mac(5) and sends_of(b):
+                fails.append((i, 'interface 0 answers another mapper\'s Discover after a record allocation failed for ANOTHER interface: its mapper association was lost'))
+            if d['opc'] == 6:
+                sn = sends_of(b); q = qresp_fields(sn[0][2]) if sn else None
+                if q is None or q['n'] != 3:
+                    fails.append((i, 'interface 0 reports %s of its 3 observations after a record allocation failed for ANOTHER interface' % (q['n'] if q else 'none')))
+        lv = [b.kv.get('live') for b in ib if b.op.startswith('frame') and 'live' in b.kv]
+        if lv and int(lv[-1]) > 2: fails.append((len(ib) - 1, 'after both interfaces were reset %s allocations are live (two interface records at most): memory was orphaned when the record allocation failed' % lv[-1]))
     if name.endswith('~x'): return fails
     if name.startswith('ctor'):
         for i, b in enumerate(ib):
